@@ -256,7 +256,7 @@ func IsSameV1alpha1WorkloadRefGVKName(a, b *appsv1alpha1.WorkloadRef) bool {
 	if a == nil || b == nil {
 		return false
 	}
-	return reflect.DeepEqual(a, b)
+	return isSameGroupKindName(a.APIVersion, a.Kind, a.Name, b.APIVersion, b.Kind, b.Name)
 }
 
 func GetContextFromv1alpha1Rollout(rollout *appsv1alpha1.Rollout) *validateContext {
